@@ -588,7 +588,7 @@ func (s realSpec) rec(name string) *wire.Rec {
 func realSpecGen(r *rand.Rand, chars, lcs, relics []string) realSpec {
 	n := 1 + r.Intn(4)
 	s := realSpec{abil: pick(r, 1, 5, 9, 10, 15), energy: pick(r, 0, 50, 200), elevel: pick(r, 1, 1, 50, 80, 95), ehp: pick(r, 50, 500, 2000, 20000, 100000, 1000000),
-		cycles: pick(r, 1, 2, 3, 5, 8), seed: r.Intn(100000)}
+		cycles: pick(r, 1, 2, 3, 5, 8), seed: pick(r, r.Intn(100000), r.Intn(100000), r.Intn(100000), 0, -7, 1<<40)} // every seed, zero and negative ones too
 	if r.Intn(3) == 0 {
 		s.quirk = r.Intn(64)
 		s.tmask = r.Intn(1 << 13)
@@ -668,6 +668,11 @@ func (realComp) Gen(r *rand.Rand, tier string, n int) []*wire.Case {
 		}
 	case "repeat":
 		cases = append(cases, &wire.Case{ID: "d-sample", Ops: []*wire.Rec{sample.rec("repeat").I("k", 3)}})
+		for _, sd := range []int{0, -1, 1 << 40} { // particular seeds
+			z := sample
+			z.seed = sd
+			cases = append(cases, &wire.Case{ID: fmt.Sprintf("d-seed-%d", sd), Ops: []*wire.Rec{z.rec("repeat").I("k", 3)}})
+		}
 		for i := 0; i < n; i++ {
 			s := realSpecGen(r, chars, lcs, relics)
 			cases = append(cases, &wire.Case{ID: fmt.Sprintf("r%d", i), Ops: []*wire.Rec{s.rec("repeat").I("k", 3)}})
